@@ -654,7 +654,7 @@ func (e *Engine) callSSA(caller *frame, fn *ssa.Function, args []Value, env []Va
 		e.unsupported("uninstantiated generic: " + fn.String())
 	}
 	if !e.inInit {
-		e.FuncsEncoded[fn.String()]++
+		e.funcCount[fn]++
 	}
 	fr := &frame{e: e, caller: caller, fn: fn, g: e.cur}
 	depth := 0
